@@ -60,6 +60,11 @@ CLAIMED = {
         note="Bounded as stated; the empty text is skipped. View trusted (unicode-segmentation cluster lengths). A hang is caught by the 5 s per-case watchdog.",
         technique="TLA+ window stepping machine model-checked with TLC; TLC-enumerated texts/configurations replayed; recorded results validated by a TLC trace spec",
         ref="6 C16"),
+    "C17": dict(
+        text="spec/Tok.tla specifies the token groups of the byte tokenizer (one group per prefix token, character, special token, suffix token; nested code-point groups) on top of the scanner and cluster model; Trace_Coo specifies the sparse aggregation matrix (one entry per token: batch index, group index, token index; weights 1/len resp. nested 1/(k*len) as exact rationals, ones for sum), the declared size, group lengths, the padding mask and padded id/label matrices. Binding: TLC-enumerated texts x byte configurations and batches of texts are tokenized by the real ByteTokenizer, passed through the real token_groups_to_sparse_coo_matrix / padding_mask / Batch<TrainItem>::tensorize (guarded read accessor for SparseCoo), and every record is validated by Trace_Tok (groups) and Trace_Coo (matrix, mask, padding); random real strings and batches likewise.",
+        note=TOK_NOTE + " f32 weights compared with exact rationals within 1e-6; per-group weight sums within one unit per token.",
+        technique="TLA+ spec of token groups and of the COO matrix / padding; TLC-enumerated texts and batches replayed; recorded outputs validated by TLC trace specs",
+        ref="6 C17"),
     "C18": dict(
         text="spec/Lcs.tla defines the LCS length as a row fold and ValidMatching (pairs inside both texts, strictly increasing in both coordinates, equal words - case-folded when requested -, as many pairs as the LCS length); MC_Lcs explores a machine that grows a common subsequence pair by pair for all pairs of word sequences up to length 3 over {x, X, y} and checks that no common subsequence exceeds the fold and that the fold satisfies the Bellman conditions (it is the maximum) and is symmetric. Binding: all pairs up to length 3/4 x ignore_case x separator choices and random longer texts go through the real match_words and edited_words; Trace_Lcs checks ValidMatching, the word counts, and that edited_words is exactly the complement of the case-sensitive matching.",
         note="Bounded as stated; words split on ASCII whitespace (other whitespace is outside 'pairs of word sequences'); case folding via to_lowercase is part of the view.",
@@ -150,7 +155,7 @@ def main():
     print("MANIFEST.json: %d checks, %d not_applicable" % (len(checks), len(na)))
 
 
-HOOK_COMMITS = ["3613811", "f304319", "2211f72"]
+HOOK_COMMITS = ["3613811", "f304319", "2211f72", "6668f70"]
 
 if __name__ == "__main__":
     main()
